@@ -1,9 +1,9 @@
 CONSTANTS
-  Slack = 1000
-  LocalBound = 3000
-  RemoteBound = 8000
-  FailBound = 8000
-  CloseBound = 8000
+  Slack = 1500
+  LocalBound = 4000
+  RemoteBound = 9000
+  FailBound = 9000
+  CloseBound = 9000
 SPECIFICATION Spec
 INVARIANTS DeadlineBounds LocalCloseReleases RemoteCloseReleases FailureReleases ClosePrompt NothingLeftRunning
 POSTCONDITION TraceAccepted
